@@ -77,6 +77,9 @@ CONFIGS = {
     # two tokens on one line (repeats, mixed kinds, prefix addresses), plain and regex patterns
     "pair": dict(dels=["space", "punct"], tok=2, nip=2, pats=[[], [1]], regex=[False, True],
                  fam=["plain", "prefix"]),
+    # lists of two or three patterns (plain and regular-expression form), lines that only a later pattern matches
+    "pats3": dict(dels=["space"], tok=2, kinds=["text", "pat", "ip", "kw"], npat=3, pats=[[1, 2], [2, 3], [1, 2, 3]],
+                  regex=[False, True]),
     "pairx": dict(dels=["edge", "alpha", "dotnum"], tok=2, kinds=["text", "ip", "short", "dom", "mac", "kw", "pw"],
                   pats=[[]]),
     "pairc": dict(dels=["colon", "dash", "digit"], tok=2, kinds=["text", "ip", "dom", "mac"], pats=[[]]),
@@ -128,9 +131,9 @@ CONFIGS = {
 }
 
 PLAN = {
-    "C08": dict(quick=dict(emit=["tok1", "switch1", "pair", "pairx", "pairc", "pairw"], model=["orders"], cap=8000, nconc=3,
+    "C08": dict(quick=dict(emit=["tok1", "switch1", "pair", "pats3", "pairx", "pairc", "pairw"], model=["orders"], cap=8000, nconc=3,
                            paths=["content"]),
-                thorough=dict(emit=["tok1", "switch1", "pair", "pairx", "pairc", "pairw", "triple", "triplep"], model=["orders"],
+                thorough=dict(emit=["tok1", "switch1", "pair", "pats3", "pairx", "pairc", "pairw", "triple", "triplep"], model=["orders"],
                               cap=45000, nconc=6, paths=["content", "content", "file", "provider", "fileprovider"])),
     "C09": dict(quick=dict(emit=["hist2", "hist2x", "histw"], model=[], cap=8000, nconc=2, paths=["content"], long=80),
                 thorough=dict(emit=["hist2", "hist2x", "histw", "hist3ip", "hist3host", "hist3mac"], model=[], cap=50000, long=600,
